@@ -157,9 +157,41 @@ var errVariable = fmt.Errorf("variable")
 var errIgnore = fmt.Errorf("ignore")
 
 // NOTE: nodes is modified in place, so be sure to send unique copy in
+// containsMarker reports whether v is, or contains at any depth, a variable or ignore placeholder.
+func containsMarker(v types.Value) bool {
+	switch t := v.(type) {
+	case types.Record:
+		for vv := range t.Values() {
+			if containsMarker(vv) {
+				return true
+			}
+		}
+	case types.Set:
+		for vv := range t.All() {
+			if containsMarker(vv) {
+				return true
+			}
+		}
+	}
+	return IsVariable(v) || IsIgnore(v)
+}
+
 func tryPartial(env Env, nodes []ast.IsNode,
 	mkEval func(values []types.Value) Evaler,
 	mkNode func(nodes []ast.IsNode) ast.IsNode,
+) (ast.IsNode, error) {
+	return tryPartialOperands(env, nodes, mkEval, mkNode, false)
+}
+
+// tryPartialOperands is tryPartial with a choice of whether an operand may be a record or set
+// that still contains a placeholder. Only projections (attribute access, has) may look into
+// such a value; every other operator would treat the placeholder as if it were a concrete
+// entity, so for them the operand counts as unknown. Such operands are never written into the
+// residual node either: the original operand is kept instead.
+func tryPartialOperands(env Env, nodes []ast.IsNode,
+	mkEval func(values []types.Value) Evaler,
+	mkNode func(nodes []ast.IsNode) ast.IsNode,
+	projection bool,
 ) (ast.IsNode, error) {
 	var values []types.Value
 	ok := true
@@ -170,6 +202,14 @@ func tryPartial(env Env, nodes []ast.IsNode,
 			continue
 		} else if err != nil {
 			return nil, err
+		}
+		if v, vok := n.(ast.NodeValue); vok && containsMarker(v.Value) {
+			if !projection {
+				ok = false
+			} else if ok {
+				values = append(values, v.Value)
+			}
+			continue // keep the original operand in the residual
 		}
 		nodes[i] = n
 		if !ok {
@@ -214,7 +254,7 @@ func tryPartialUnary(env Env, v ast.UnaryNode, mkEval func(a Evaler) Evaler, wra
 func partial(env Env, n ast.IsNode) (ast.IsNode, error) {
 	switch v := n.(type) {
 	case ast.NodeTypeAccess:
-		return tryPartial(env,
+		return tryPartialOperands(env,
 			[]ast.IsNode{v.Arg},
 			func(values []types.Value) Evaler {
 				return newAttributeAccessEval(newLiteralEval(values[0]), v.Value)
@@ -222,9 +262,10 @@ func partial(env Env, n ast.IsNode) (ast.IsNode, error) {
 			func(nodes []ast.IsNode) ast.IsNode {
 				return ast.NodeTypeAccess{StrOpNode: ast.StrOpNode{Arg: nodes[0], Value: v.Value}}
 			},
+			true,
 		)
 	case ast.NodeTypeHas:
-		return tryPartial(env,
+		return tryPartialOperands(env,
 			[]ast.IsNode{v.Arg},
 			func(values []types.Value) Evaler {
 				return newPartialHasEval(newLiteralEval(values[0]), v.Value)
@@ -232,6 +273,7 @@ func partial(env Env, n ast.IsNode) (ast.IsNode, error) {
 			func(nodes []ast.IsNode) ast.IsNode {
 				return ast.NodeTypeHas{StrOpNode: ast.StrOpNode{Arg: nodes[0], Value: v.Value}}
 			},
+			true,
 		)
 	case ast.NodeTypeGetTag:
 		return tryPartial(env,
